@@ -24,9 +24,36 @@
 
 """
 
-from Crypto.Hash import SHA256
+from Crypto.Hash import SHA1
 from Crypto.PublicKey import RSA
 from Crypto.Signature import pkcs1_15
+
+
+class _PrehashedSHA1(object):  # pylint: disable=too-few-public-methods
+    """A stand-in for a ``Crypto.Hash.SHA1`` hash object whose digest is the provided (already hashed) data.
+
+    Parameters
+    ----------
+    data : bytes, bytearray
+        The SHA-1 digest that will be signed
+
+    """
+    oid = SHA1.new().oid
+    digest_size = SHA1.digest_size
+
+    def __init__(self, data):
+        self._data = bytes(data)
+
+    def digest(self):
+        """Return the data as is.
+
+        Returns
+        -------
+        bytes
+            The data that was provided to the constructor
+
+        """
+        return self._data
 
 
 class PycryptodomeAuthSigner(object):
@@ -69,8 +96,8 @@ class PycryptodomeAuthSigner(object):
             The signed ``data``
 
         """
-        h = SHA256.new(data)
-        return pkcs1_15.new(self.rsa_key).sign(h)
+        # The data (an ADB token) is signed as an already computed SHA-1 digest; it must not be hashed again
+        return pkcs1_15.new(self.rsa_key).sign(_PrehashedSHA1(data))
 
     def GetPublicKey(self):
         """Returns the public key in PEM format without headers or newlines.
